@@ -562,3 +562,58 @@ def ref_any(t, root=True, denoted=False):
     nsmap = {p: u for p, u in t["ns"]}
     attrs = [[k, denote(v, nsmap) if denoted else v] for k, v in t["a"]]
     return {"any": {"qname": t["q"], "text": text, "tail": tail, "attrs": attrs, "children": kids}}
+
+
+# ------------------------------------------------------------------ render options away from their defaults
+def _doc_namespaces(t):
+    """namespaces of qualified attribute names (first) and of element names of a document, in document order"""
+    attrs, elems = [], []
+
+    def go(n):
+        for k, _ in n["a"]:
+            if k.startswith("{") and not k.startswith("{" + XSI):
+                u = k[1:].split("}")[0]
+                if u not in attrs:
+                    attrs.append(u)
+        if n["q"].startswith("{"):
+            u = n["q"][1:].split("}")[0]
+            if u not in elems:
+                elems.append(u)
+        for c in n["c"]:
+            go(c)
+
+    go(t)
+    return attrs, elems
+
+
+def render_options(doc):
+    """One way of calling `XmlSerializer.render` away from the defaults, a function of the document alone:
+    a user prefix map that makes a namespace of the document the *default* namespace (preferably one that
+    qualifies an attribute: attributes never take the default namespace, so a prefix has to be generated and
+    declared where it is used), binds it under a second prefix as well, binds it under a prefix only, or
+    binds two namespaces; with or without the xml declaration."""
+    import hashlib
+    import json as _json
+
+    h = int(hashlib.sha1(_json.dumps(doc, sort_keys=True, ensure_ascii=False).encode("utf-8", "surrogatepass")).hexdigest(), 16)
+    attrs, elems = _doc_namespaces(doc)
+    uris = attrs + [u for u in elems if u not in attrs] or ["urn:b"]
+    u0, u1 = uris[0], uris[-1]
+    variants = [
+        [[None, u0]],
+        [[None, u0], ["x", u0]],
+        [["x", u0]],
+        [[None, u1]],
+        [[None, u0], ["y", u1]],
+        [["x", u0], [None, u1]],
+        [[None, "urn:unused"]],
+    ]
+    def has_qname_data(n):
+        return any(k == XSI_TYPE for k, _ in n["a"]) or any(has_qname_data(c) for c in n["c"])
+
+    if has_qname_data(doc):
+        # QName-valued data under a user default namespace is the subject of two listed findings of C03 (a QName
+        # without namespace is read back in the default namespace; a QName in the default namespace on an element
+        # that resets it loses its namespace): such documents get the prefix-only maps
+        variants = [[["x", u0]], [["x", u0], ["y", u1]], [["x", "urn:unused"]]]
+    return {"ns_map": variants[h % len(variants)], "xml_declaration": bool((h >> 8) & 1)}
